@@ -103,7 +103,7 @@ struct Init {
                [](bool th) { GenParams g; g.checkpoint_each = true; g.utf8_names = true; g.align_args = true; g.hints = true; g.redef = true; g.meta_heavy = true; g.max_np = 4; g.max_data_ops = th ? 14 : 8; g.multi_file = th; return g; },
                [](const Program &q, const RunResult &r) { int n = 0; for (auto &op : q.ops) if (!op.skip && op.kind == OP_CHECKPOINT) n++; return r.completed && n >= 2 && r.st.bytes_written > 0; });
         simple("C05", "one seed = one history of collective / independent / nonblocking writes to record variables by subsets of 2..8 ranks (strided record indices, zero-length, rewrites), mode switches, sync/sync_numrecs, partial waits, redef, reopen; every rank's reported record count is checked after every op and the header field at every checkpoint; non-trivial = record count grew at least twice on >= 2 ranks",
-               [](bool th) { GenParams g; g.min_np = 2; g.max_np = th ? 8 : 6; g.nonblocking = true; g.redef = true; g.fill = true; g.max_data_ops = th ? 30 : 18; g.checkpoint_each = false; g.atts = false; g.max_dimlen = 3; g.hints = true; /* incl. intra-node aggregation, safe mode */ return g; },
+               [](bool th) { GenParams g; g.fill_rec_split = true; g.min_np = 2; g.max_np = th ? 8 : 6; g.nonblocking = true; g.redef = true; g.fill = true; g.max_data_ops = th ? 30 : 18; g.checkpoint_each = false; g.atts = false; g.max_dimlen = 3; g.hints = true; /* incl. intra-node aggregation, safe mode */ return g; },
                [](const Program &q, const RunResult &r) { int n = 0; for (auto &op : q.ops) if (!op.skip && (op.kind == OP_PUT || op.kind == OP_WAIT || op.kind == OP_FILL_VAR_REC)) n++; return r.completed && n >= 2 && q.cfg.sim.nprocs >= 2; });
         simple("C06", "one seed = build a file with data, then 1..3 redefinition deltas (attributes growing the header, new fixed / record variables, new alignment) with knob MOVE_UNIT in {1 B..4 KiB} so data moves take many rounds across 1..8 ranks; some redefinitions are aborted (byte-for-byte comparison with the image at ncmpi_redef), some creates are aborted (file must vanish); non-trivial = a redefinition with existing data completed or was aborted",
                [](bool th) { GenParams g; g.redef = true; g.knobs = true; g.align_args = true; g.hints = true; g.max_np = th ? 8 : 6; g.max_data_ops = th ? 24 : 14; g.fill = true; return g; },
@@ -115,7 +115,7 @@ struct Init {
                [](bool th) { GenParams g; g.nonblocking = true; g.big = true; g.hints = true; g.knobs = true; g.max_np = 3; g.max_data_ops = th ? 30 : 18; g.erange = true; return g; },
                [has_kind](const Program &q, const RunResult &r) { return r.completed && (has_kind(q, OP_BPUT) || has_kind(q, OP_IPUT)) && has_kind(q, OP_WAIT); });
         simple("C16", "one seed = one schema with any subset of variables in fill mode (set_fill before/after definitions, def_var_fill with/without value), 1..8 ranks, partial writes, redefinitions adding fixed and record variables to files that already hold records, fill_var_rec; never-written elements are read through the API and decoded from the raw image; non-trivial = at least one fill-mode variable existed and was read or checkpointed",
-               [](bool th) { GenParams g; g.fill = true; g.redef = true; g.max_np = th ? 8 : 6; g.max_data_ops = th ? 24 : 14; g.checkpoint_each = false; g.knobs = true; return g; },
+               [](bool th) { GenParams g; g.fill_rec_split = true; g.fill = true; g.redef = true; g.max_np = th ? 8 : 6; g.max_data_ops = th ? 24 : 14; g.checkpoint_each = false; g.knobs = true; return g; },
                [](const Program &q, const RunResult &r) { bool f = false; for (auto &op : q.ops) if (!op.skip && (op.kind == OP_SET_FILL || op.kind == OP_DEF_VAR_FILL)) f = true; return r.completed && f; });
         simple("C08", "one seed = one program whose collective put/get calls (var1/var/vara/vars/varm, varn, vard families; fixed and record variables) give each of 2..8 ranks valid, zero-length or invalid arguments (bad varid, start, edge, negative count, stride, char/number mismatch), with safe mode on in a quarter of the seeds (errors then shared), intra-node aggregation and hints varied, eager/synchronising collectives and starvation in the schedule; the simulated MPI matches every collective by sequence number and reports the first mismatch or deadlock exactly; oracle: no mismatch, no hang, each rank's return code as documented (own error locally / shared in safe mode), valid ranks' data stored; non-trivial = at least one rank had an invalid or zero-length request in a collective call on >= 2 ranks",
                [](bool th) { GenParams g; g.invalid_args = true; g.min_np = 2; g.max_np = th ? 8 : 6; g.max_data_ops = th ? 20 : 12; g.hints = true; g.nonblocking = true; g.fill = true; g.max_dimlen = 4; return g; },
@@ -503,7 +503,7 @@ struct Init {
             }
             Profile p; p.id = "C18"; p.level = "exploration"; p.space_seeds = (long)cases.size();
             p.technique = "deterministic simulation: enumeration of definition sets around every size threshold of the three formats on the sparse simulated file system, with element accesses on both sides of 2^31 / 2^32 checked against the raw image";
-            p.rule = "variable templates per format with byte sizes just below / at / above 2^31-4 (CDF-1), 2^32-4 (CDF-2) and 2^63-4 (CDF-5, incl. a 2^64 overflow) plus a small one; every sequence of 1..3 variables (each fixed or record, at most two large) is one case, plus dimension lengths -1, 2^31-1, 2^31, 2^32-1, 2^32, 2^63-1 per format: " + std::to_string(cases.size()) + " cases, seeds 1.." + std::to_string(cases.size()) + " enumerate them all; later seeds repeat them with 1..3 ranks / other schedules and, in turn, (1) the variables split over two define-mode sessions (enddef, redef, enddef: the rule applies to the whole list), (2) pairs of nonblocking writes completed by one wait whose distance is exactly k*2^32 bytes, within one variable or across variables, (3) hint nc_num_aggrs_per_node with two ranks writing blocks 2^31..2^32 (+k*2^32) bytes apart in one collective call; oracle (a) def_dim and enddef return codes against a rule table written from the format limits (exact integer arithmetic); (b) for accepted definitions the header on the sparse simulated disk decodes strictly, begins are ordered / non-overlapping / below 2^31 in CDF-1, vsize saturates as specified, ncmpi_inq_varoffset agrees; first / last elements, elements whose byte offsets straddle 2^31 and 2^32, a 2-element box and a strided pair are written (blocking, nonblocking, strided) by alternating ranks, found at the independently computed byte offset of the raw image and read back by every rank; non-trivial = the case reached enddef";
+            p.rule = "variable templates per format with byte sizes just below / at / above 2^31-4 (CDF-1), 2^32-4 (CDF-2) and 2^63-4 (CDF-5, incl. a 2^64 overflow) plus a small one; every sequence of 1..3 variables (each fixed or record, at most two large) is one case, plus dimension lengths -1, 2^31-1, 2^31, 2^32-1, 2^32, 2^63-1 per format: " + std::to_string(cases.size()) + " cases, seeds 1.." + std::to_string(cases.size()) + " enumerate them all; later seeds repeat them with 1..3 ranks / other schedules and, in turn, (1) the variables split over two define-mode sessions (enddef, redef, enddef: the rule applies to the whole list), (2) pairs of nonblocking writes completed by one wait whose distance is exactly k*2^32 bytes, within one variable or across variables, (3) hint nc_num_aggrs_per_node with two ranks writing blocks 2^31..2^32 (+k*2^32) bytes apart in one collective call; on all later laps record indices 2^31-2 (CDF-2: the largest count of the 32-bit field), 2^31+1 and 2^32+1 (CDF-5) are written and the record count is compared in memory on every rank, in the header on disk and after reopen; oracle (a) def_dim and enddef return codes against a rule table written from the format limits (exact integer arithmetic); (b) for accepted definitions the header on the sparse simulated disk decodes strictly, begins are ordered / non-overlapping / below 2^31 in CDF-1, vsize saturates as specified, ncmpi_inq_varoffset agrees; first / last elements, elements whose byte offsets straddle 2^31 and 2^32, a 2-element box and a strided pair are written (blocking, nonblocking, strided) by alternating ranks, found at the independently computed byte offset of the raw image and read back by every rank; non-trivial = the case reached enddef";
             p.gen = [](uint64_t seed, bool th) {
                 Program q; q.seed = seed; q.cfg.profile = "C18";
                 size_t ci = (size_t)((seed - 1) % cases.size()); uint64_t lap = (seed - 1) / cases.size(); const Case &cs = cases[ci];
@@ -527,6 +527,13 @@ struct Init {
                             if (len[nd - 1] >= 3) { auto st = last; st[nd - 1] = 0; auto ct = one; ct[nd - 1] = 2; std::vector<long long> sd(nd, 1); sd[nd - 1] = len[nd - 1] - 1; add(st, ct, 2, sd); }
                             if (len[0] >= 3 && len[nd - 1] >= 3) { auto ct = one; ct[0] = 2; ct[nd - 1] = 2; std::vector<long long> sd(nd, 1); sd[0] = len[0] - 1; sd[nd - 1] = len[nd - 1] - 1; add(zero, ct, 2, sd); }
                             if (nd >= 3 && len[1] >= 3 && len[nd - 1] >= 3) { auto st = zero; if (rec) st[0] = 1; auto ct = one; ct[1] = 2; ct[nd - 1] = 2; std::vector<long long> sd(nd, 1); sd[1] = len[1] - 1; sd[nd - 1] = len[nd - 1] - 1; add(st, ct, 2, sd); }
+                        }
+                        if (nd >= 2 && len[nd - 1] >= 5) {   // a box of several partial rows (a subarray whose row pitch is the full - possibly > 2^31 / 2^32 - inner length), blocking and nonblocking
+                            for (int md = 0; md < 2; md++) { size_t od = (rec && nd >= 3 && md) ? 1 : 0; if (len[od] < 2) continue; auto st = zero; st[nd - 1] = 1 + md; auto ct = one; ct[od] = 2; ct[nd - 1] = 3; add(st, ct, md); }
+                        }
+                        if (rec && cs.format != 1 && lap >= 1) {   // record indices at the limit of the 32-bit count (CDF-2: record 2^31-2) and beyond 2^31 / 2^32 (CDF-5): the record count itself needs more than 32 bits
+                            __int128 rs = 0; for (size_t vj = 0; vj < bc.vars.size(); vj++) if (cs.vars[vj].second) { __int128 b = cdf::type_size(bc.vars[vj].type); for (size_t d = 1; d < bc.vars[vj].dimids.size(); d++) b *= (__int128)bc.dimlen[bc.vars[vj].dimids[d]]; rs += (b + 3) / 4 * 4; }
+                            if (rs > 0 && rs < (1 << 20)) { auto st = zero; st[0] = cs.format == 5 ? (1LL << 31) + 1 : (1LL << 31) - 2 /* the largest record count a 32-bit NON_NEG field can hold is 2^31-1 */; add(st, one, (int)(vi % 2)); if (cs.format == 5) { st[0] = (1LL << 32) + 1; add(st, one, (int)((vi + 1) % 2)); } }
                         }
                         // elements whose byte offset inside the variable (or record) is just below / at 2^31 and 2^32
                         for (long long B : {1LL << 31, 1LL << 32}) {
